@@ -25,6 +25,12 @@ def c06_runs(tier, scale):
     return [("c06", [250 * scale, 3, 1, 65536], None), ("c06", [150 * scale, 5, 0, 4096], None)]
 
 
+def c07_runs(tier, scale):
+    if tier == "thorough":
+        return [("c07", [6000 * scale, 2 + (i % 4)], None) for i in range(16)]
+    return [("c07", [600 * scale, 3], None), ("c07", [400 * scale, 4], None)]
+
+
 def c05_runs(tier, scale):
     th = 1 if tier == "thorough" else 0
     runs = [("c05", [lim, th], None) for lim in ([4096, 65536, 1 << 20] if tier == "quick" else [4096, 16384, 65536, 1 << 20, 16 << 20])]
@@ -126,6 +132,34 @@ PROPS = {
                 "of generated (schema, value) pairs, bit flips, byte substitutions, boundary-varint splices, random bytes; "
                 "each through the generic decoder and the schema-aware deserializer; distinct = distinct request lines",
         "trusted_base": DATUM_TB,
+        "assumptions": [],
+    },
+    "C07": {
+        "lean_modules": ["AvroProofs.C07", "AvroProofs.C01"],
+        "theorems": ["Avro.C07.rejected_writes_nothing", "Avro.C07.accepted_written_readably_partial",
+                     "Avro.C07.written_unreadably_float_for_double", "Avro.C07.not_written_map_for_record",
+                     "Avro.C07.written_differently_bare_value_in_union", "Avro.C07.not_written_bare_value_in_union",
+                     "Avro.C07.not_written_nullable_field_left_out", "Avro.C07.not_written_bytes_for_decimal",
+                     "Avro.C07.written_unreadably_fixed_for_decimal", "Avro.C07.inconsistent_fixed_rejected",
+                     "Avro.C07.written_unreadably_enum_index",
+                     "Avro.C07.not_written_required_field_left_out"],
+        "partial": [
+            {"theorem": "Avro.C07.accepted_written_readably_partial",
+             "excluded_by": "hypothesis Conforms (the value is already in the schema's canonical representation). The full statement "
+                            "(every value validate accepts) is FALSE of the code: the witness theorems not_written_* / written_unreadably_* / "
+                            "written_differently_* are kernel-checked counterexamples on the model, the correspondence run shows the model and the "
+                            "implementation agree on them, and they are the open known findings C07.*"},
+        ],
+        "harness": c07_runs,
+        "projection": "okerr",
+        "nontrivial": lambda l: True,
+        "rule": "generated (schema, conforming value) pairs, each rewritten 4 times at mutation rates 0/15/35/60 % by 29 per-position rewrites "
+                "(bare value in a union position, wrong union index, string for an enum, out-of-range / mismatching enum index, unknown symbol, "
+                "int for long, long for int, float for double, double for float, int/long for logical types, bytes for fixed, wrong-size fixed, "
+                "fixed with disagreeing length, bytes/fixed for decimal, fixed for duration, string/bytes/fixed for uuid, nullable / required field "
+                "left out, fields reordered, extra field, map for a record, value of another type); rows: validate, resolve, non-validating encode "
+                "(model correspondence) and the three validating writers + read-back (implementation oracle); distinct = distinct request lines",
+        "trusted_base": DATUM_TB + ["f32/f64 conversions are a parameter of the model (FloatOps); the driver instantiates it with the host's IEEE operations"],
         "assumptions": [],
     },
     "C05": {
